@@ -58,7 +58,7 @@ STD_OPTIONS = {
     "batch_norm_between_layers": [opt("True", flow=dict(batch_norm_between_layers=True))],
     "annealing": [opt("True", training=dict(annealing=True))],
     "noise": [opt("constant0.1", training=dict(noise_scale=0.1)), opt("adaptive", training=dict(noise_type="adaptive", noise_scale=0.1))],
-    "val_size": [opt("0.3", training=dict(val_size=0.3))],
+    "val_size": [opt("0.3", training=dict(val_size=0.3)), opt("0", training=dict(val_size=0))],
     "batch_size": [opt("all", training=dict(batch_size="all")), opt("10", training=dict(batch_size=10))],
     "optimiser": [opt("adam", training=dict(optimiser="adam")), opt("sgd", training=dict(optimiser="sgd"))],
     "use_dataloader": [opt("True", training=dict(use_dataloader=True))],
@@ -160,6 +160,9 @@ STD_QUICK_PAIRS = [
     (["reset_flow:True", "maximum_uninformed:0"], dict(init=dict(reset_flow=True, maximum_uninformed=0))),
     (["train_on_empty:False", "memory:20"], dict(init=dict(train_on_empty=False, training_frequency=25, memory=20))),
     (["memory:20", "training_frequency:20", "reset_weights:2"], dict(init=dict(memory=20, training_frequency=20, reset_weights=2))),
+    (["use_dataloader:True", "val_size:0"], dict(training=dict(use_dataloader=True, val_size=0))),
+    (["use_dataloader:True", "batch_size:10", "batch_norm_between_layers:True"],
+     dict(training=dict(use_dataloader=True, batch_size=10), flow=dict(batch_norm_between_layers=True))),
     (["maximum_uninformed:0", "latent_prior:flow+cvm=False", "fixed_radius:2.0"],
      dict(init=dict(maximum_uninformed=0, latent_prior="flow", constant_volume_mode=False, fixed_radius=2.0))),
 ]
@@ -213,6 +216,22 @@ INS_OPTIONS = {
                        opt("True+use_counts", run=dict(redraw_samples=True, use_counts=True)),
                        opt("True+optimise_weights", run=dict(redraw_samples=True, optimise_weights=True)),
                        opt("True+max_samples_ratio=None", run=dict(redraw_samples=True, max_samples_ratio=None))],
+}
+# flow / training options of the importance sampler.  They only act on real neural flows (the scripted tilt flows of the other
+# importance-sampler runs ignore them), so these run with real flows, two levels, in every tier.  The importance sampler
+# always trains through the weighted data-loader path with batch normalisation between layers.
+INS_REAL_OPTIONS = {
+    "val_size": [opt("0", training=dict(val_size=0)), opt("0.3", training=dict(val_size=0.3))],
+    "batch_size": [opt("all", training=dict(batch_size="all")), opt("10", training=dict(batch_size=10)),
+                   opt("7", training=dict(batch_size=7))],
+    "noise": [opt("adaptive", training=dict(noise_type="adaptive", noise_scale=0.1))],
+    "annealing": [opt("True", training=dict(annealing=True))],
+    "optimiser": [opt("sgd", training=dict(optimiser="sgd"))],
+    "clip_grad_norm": [opt("None", training=dict(clip_grad_norm=None))],
+    "ftype": [opt("MAF", flow=dict(ftype="MAF")), opt("NSF", flow=dict(ftype="NSF"))],
+    "batch_norm_between_layers": [opt("False", flow=dict(batch_norm_between_layers=False))],
+    "linear_transform": [opt("lu", flow=dict(linear_transform="lu"))],
+    "distribution": [opt("lars", flow=dict(distribution="lars"))],
 }
 INS_INVALID = {
     "threshold_method": [opt("bogus", init=dict(threshold_method="bogus"))],
